@@ -272,6 +272,8 @@ fn kb_add_word<D: Dec>(rep: &mut Report) {
 
 #[derive(Default)]
 struct Out {
+    structural_only: u64,
+    judged: std::collections::HashMap<String, Option<String>>,
     add_bits: u64,
     frames: u64,
     clears: u64,
@@ -285,6 +287,58 @@ fn replay_bits(ops: &[String], want: &str, got: &str) -> J {
         .with("ops", J::strs(ops.iter().cloned()))
         .with("expected_last", J::s(want))
         .with("observed_last", J::s(got))
+}
+
+fn replay_ops(ops: &[String]) -> Ps2Decoder {
+    let mut d = Ps2Decoder::new();
+    for op in ops {
+        if op == "clear" {
+            d.clear();
+        } else if let Some(bits) = op.strip_prefix("bits:") {
+            for c in bits.chars() {
+                let _ = d.add_bit(c == '1');
+            }
+        }
+    }
+    d
+}
+
+/// Behavioural test of "nothing leaks into the next frame": after the history `ops` (which ends on a frame
+/// boundary or a clear()), every one of the 2048 frames – and a few frames after it – must decode by the rule.
+/// The Debug rendering differing from a fresh decoder's is only the trigger for this test: a tree may carry
+/// extra state that never influences a later frame, which the property allows.
+fn leak_after(ops: &[String]) -> Option<String> {
+    let followers = [encode_frame(0x00), encode_frame(0xFF), 0x7FFu16, encode_frame(0x1C)];
+    for w in 0..2048u16 {
+        let r = guarded(|| {
+            let mut d = replay_ops(ops);
+            let mut frames = vec![w];
+            frames.extend(followers.iter());
+            for (fi, f) in frames.iter().enumerate() {
+                for i in 0..11 {
+                    let r = d.add_bit((f >> i) & 1 == 1);
+                    let want: BitRes = if i < 10 { Ok(None) } else { frame_expect(*f).map(Some) };
+                    if r != want {
+                        return Some(format!(
+                            "after that history, frame {} (#{} after it), bit {}: got {} where the rule gives {}",
+                            word_bits(*f),
+                            fi + 1,
+                            i + 1,
+                            bitres_str(&r),
+                            bitres_str(&want)
+                        ));
+                    }
+                }
+            }
+            None
+        });
+        match r {
+            Ok(None) => {}
+            Ok(Some(m)) => return Some(m),
+            Err(p) => return Some(format!("panic while decoding the next frame: {}", p)),
+        }
+    }
+    None
 }
 
 /// Shift the 11 bits of `w` into `d`; check results 1..10 are None and the 11th equals the
@@ -334,12 +388,19 @@ fn feed_and_check(d: &mut Ps2Decoder, w: u16, prev: &str, prev_ops: &dyn Fn() ->
         if s != fresh_dbg {
             let mut ops = prev_ops();
             ops.push(format!("bits:{}", word_bits(w)));
-            out.violations.push((
-                format!("C06|state-not-fresh-after-frame|class={}|state={}", frame_class(w), s),
-                format!("after the complete ({}) frame {} the decoder is {} instead of {}", frame_class(w), word_bits(w), s, fresh_dbg),
-                replay_bits(&ops, fresh_dbg, &s),
-            ));
-            ok = false;
+            if !out.judged.contains_key(&s) {
+                out.judged.insert(s.clone(), leak_after(&ops));
+            }
+            if let Some(leak) = out.judged[&s].clone() {
+                out.violations.push((
+                    format!("C06|state-not-fresh-after-frame|class={}|state={}", frame_class(w), s),
+                    format!("after the complete ({}) frame {} the decoder is {} instead of {}, and it leaks: {}", frame_class(w), word_bits(w), s, fresh_dbg, leak),
+                    replay_bits(&ops, fresh_dbg, &s),
+                ));
+                ok = false;
+            } else {
+                out.structural_only += 1;
+            }
         }
     }
     ok
@@ -417,11 +478,18 @@ pub fn run_c06(rep: &mut Report) {
                             );
                         }
                         if dbg != fresh_dbg {
-                            rep.violate(
-                                format!("C06|state-not-fresh-after-frame|class={}|state={}", frame_class(w), dbg),
-                                format!("after the complete ({}) frame {} the decoder is {} instead of {}", frame_class(w), bits_s, dbg, fresh_dbg),
-                                replay_bits(&[format!("bits:{}", bits_s)], &fresh_dbg, &dbg),
-                            );
+                            let ops = [format!("bits:{}", bits_s)];
+                            if !out.judged.contains_key(&dbg) {
+                                out.judged.insert(dbg.clone(), leak_after(&ops));
+                            }
+                            match out.judged[&dbg].clone() {
+                                Some(leak) => rep.violate(
+                                    format!("C06|state-not-fresh-after-frame|class={}|state={}", frame_class(w), dbg),
+                                    format!("after the complete ({}) frame {} the decoder is {} instead of {}, and it leaks: {}", frame_class(w), bits_s, dbg, fresh_dbg, leak),
+                                    replay_bits(&ops, &fresh_dbg, &dbg),
+                                ),
+                                None => out.structural_only += 1,
+                            }
                         }
                     }
                 }
@@ -519,11 +587,18 @@ pub fn run_c06(rep: &mut Report) {
                     local.clears += 1;
                     let s = format!("{:?}", d);
                     if k == 0 && s != fd {
-                        local.violations.push((
-                            format!("C06|state-not-fresh-after-clear|nbits={}|state={}", p.len(), s),
-                            format!("clear() after {} bits ({}) leaves {} instead of {}", p.len(), bits_s, s, fd),
-                            replay_bits(&[format!("bits:{}", bits_s), "clear".into()], &fd, &s),
-                        ));
+                        let ops = [format!("bits:{}", bits_s), "clear".to_string()];
+                        if !local.judged.contains_key(&s) {
+                            local.judged.insert(s.clone(), leak_after(&ops));
+                        }
+                        match local.judged[&s].clone() {
+                            Some(leak) => local.violations.push((
+                                format!("C06|state-not-fresh-after-clear|nbits={}|state={}", p.len(), s),
+                                format!("clear() after {} bits ({}) leaves {} instead of {}, and it leaks: {}", p.len(), bits_s, s, fd, leak),
+                                replay_bits(&ops, &fd, &s),
+                            )),
+                            None => local.structural_only += 1,
+                        }
                     }
                     let prev = format!("after-clear({}bits)", p.len());
                     let po = || vec![format!("bits:{}", bits_s), "clear".to_string()];
@@ -571,6 +646,7 @@ pub fn run_c06(rep: &mut Report) {
                 let mut n = 0u64;
                 let mut clears = 0u64;
                 let mut frames = 0u64;
+                let mut structural = 0u64;
                 // bit source: frames of random bytes with line noise
                 let mut pending: VecDeque<bool> = VecDeque::new();
                 while n < hist_len {
@@ -652,19 +728,16 @@ pub fn run_c06(rep: &mut Report) {
                     if shadow.is_empty() && frames % 97 == 0 {
                         let s = format!("{:?}", d);
                         if s != fd {
-                            viol.push((
-                                format!("C06|state-not-fresh-after-frame|class=noisy|state={}", s),
-                                format!("noisy stream: after a frame boundary the decoder is {}", s),
-                                recent.iter().cloned().collect::<Vec<_>>(),
-                            ));
-                            break;
+                            // only counted here: the lock-step shadow register is the behavioural oracle of this workload
+                            structural += 1;
                         }
                     }
                 }
-                (viol, n, clears, frames)
+                (viol, n, clears, frames, structural)
             });
             match r {
-                Ok((viol, n, clears, frames)) => {
+                Ok((viol, n, clears, frames, structural)) => {
+                    out.structural_only += structural;
                     out.add_bits += n;
                     out.clears += clears;
                     out.frames += frames;
@@ -695,6 +768,7 @@ pub fn run_c06(rep: &mut Report) {
     rep.evaluations += out.add_bits;
     rep.panics += out.panics;
     rep.count("add_bit_calls", out.add_bits);
+    rep.count("frame_boundaries_where_the_rendering_differed_from_fresh_without_any_behavioural_leak", out.structural_only);
     rep.count("clear_calls", out.clears);
     for (s, w, r) in out.violations {
         rep.violate(s, w, r);
@@ -734,6 +808,7 @@ pub fn run_c06(rep: &mut Report) {
 }
 
 fn merge(a: &mut Out, b: Out) {
+    a.structural_only += b.structural_only;
     a.add_bits += b.add_bits;
     a.frames += b.frames;
     a.clears += b.clears;
